@@ -47,12 +47,27 @@ theorem C02_mux_delivery_via_tagmap (s : St) (mt : Int) (t rid : Nat) :
         · intro h; injection h.2.2 with h'; exact h'.symm
     · rw [if_neg h0]; simp [hp, h0]
 
+/-- the same for the Kafka transport, where every reply goes through `_ProcessTaggedReply`
+    with its correlation id: delivered exactly when `_tag_map` holds a request under that id -/
+theorem C02_mux_delivery_via_tagmap_kafka (s : St) (t rid : Nat) :
+    (rid ∈ (stepProcessKafka s t).2.delivered ↔ tmLookup t s.tagmap = some rid) ∧
+    (stepProcessKafka s t).2.delivered.length ≤ 1 := by
+  unfold stepProcessKafka
+  cases hl : tmLookup t s.tagmap with
+  | none => rw [releaseTag_none hl]; simp
+  | some r =>
+    rw [releaseTag_some hl]
+    simp only [List.mem_singleton, List.length_cons, List.length_nil, Nat.zero_add, Nat.le_refl, and_true]
+    constructor
+    · intro e; subst e; rfl
+    · intro h; injection h with h'; exact h'.symm
+
 /-- no other step of the transport delivers anything to a request -/
-theorem C02_mux_only_process_delivers (max : Nat) (s : St) (op : Op) (h : ∀ mt t, op ≠ .process mt t) :
-    (stepOp max s op).2.delivered = [] := by
+theorem C02_mux_only_process_delivers (fl : Flavour) (max : Nat) (s : St) (op : Op)
+    (h : ∀ mt t, op ≠ .process mt t) : (stepOp fl max s op).2.delivered = [] := by
   cases op with
   | process mt t => exact absurd rfl (h mt t)
-  | ping => rfl
+  | ping => cases fl <;> rfl
   | reopen => rfl
   | req e popped =>
     simp only [stepOp, stepReq]
@@ -63,12 +78,19 @@ theorem C02_mux_only_process_delivers (max : Nat) (s : St) (op : Op) (h : ∀ mt
     · split <;> rfl
     · rfl
   | notify rid =>
-    simp only [stepOp, stepNotify]
-    split
-    · split
+    cases fl with
+    | thriftmux =>
+      simp only [stepOp, stepNotify]
+      split
+      · split
+        · split <;> rfl
+        · rfl
+      · rfl
+    | kafka =>
+      simp only [stepOp, stepNotifyKafka]
+      split
       · split <;> rfl
       · rfl
-    · rfl
   | send =>
     simp only [stepOp]
     unfold stepSend
@@ -116,12 +138,12 @@ theorem C02_mux_unanswered_owner_in_tagmap (cfg : Cfg) (ops : List Op) (hc : cfg
 
 /-! a concrete history: three requests written, answered out of order, one answered twice, one
     frame on an unknown tag — each delivery reaches the request that owns the tag -/
-example : (comp.modelTrace ⟨2 ^ 24 - 1⟩
+example : (comp.modelTrace ⟨2 ^ 24 - 1, .thriftmux⟩
       [.req .noev 0, .req .noev 0, .req .noev 0, .send, .send, .send,
        .process (-2) 4, .process (-2) 2, .process (-2) 2, .process (-2) 9, .process (-2) 3]).map
       (fun p => p.2.delivered) = [[], [], [], [], [], [], [2], [0], [], [], [1]] := by decide
 
-example : comp.wf ⟨2 ^ 24 - 1⟩
+example : comp.wf ⟨2 ^ 24 - 1, .thriftmux⟩
       [.req .noev 0, .req .noev 0, .req .noev 0, .send, .send, .send,
        .process (-2) 4, .process (-2) 2, .process (-2) 2, .process (-2) 9, .process (-2) 3] = true := by decide
 
